@@ -41,6 +41,8 @@ def _il_ops(c):
                 cl = "client_2"
             if c["wrong"] == "redirect" and r == 0:
                 red = RED + "/x"
+            if c["wrong"] == "noredirect" and r == 0:
+                red = None
             ops.append(["tokenParse", cl, 1, red])
             pend.append(r)          # optimistic; if the parse fails the process below names a missing index -> refused on both sides
         else:
@@ -73,7 +75,12 @@ def cases(rng, tier):
         k = rng.choice([2, 3])
         s = rng.choice(schedules(k))
         out.append(il_case(k, s, oidc, jwt, tick_at=rng.randrange(len(s)), tick=rng.choice([299, 300, 301, 5000]),
-                           wrong=rng.choice([None, None, "client", "redirect"])))
+                           wrong=rng.choice([None, None, "client", "redirect", "noredirect"])))
+    # binding clauses on each endpoint/handler combination: one redemption with a wrong client / altered / missing redirect_uri, then the right one
+    for oidc, jwt in combos:
+        for wrong in ("client", "redirect", "noredirect"):
+            out.append(il_case(2, (0, 0, 1, 1), oidc, jwt, wrong=wrong))
+            out.append(il_case(2, (0, 1, 0, 1), oidc, jwt, wrong=wrong))
     n = {"quick": 30, "thorough": 600, "search": 400}[tier]
     W = dict(authorize=14, redeem=22, parse=14, process=14, refresh=4, userinfo=3, introspect=3, revokeEp=2, revokeTok=3,
              revokeGrant=2, revokeClient=1, revokeUser=0.5, remove=1, tick=8)
